@@ -1,50 +1,39 @@
 /-
   Props/C14_race.lean — property C14, part 2c: a parked read raced by data arrival and cancellation
-  from another thread (868 reachable states; in its own file so that it builds in parallel).
-  INSTANCE theorem: every schedule of `rd_cancel_race`: the `fetch_add` election on `state_` lets
+  from another thread (554 reachable states; in its own file so that it builds in parallel).
+  INSTANCE theorem, every schedule of `rd_cancel_race`: the `fetch_add` election on `state_` lets
   exactly one of {I/O completion, cancellation} complete the operation, exactly once; a value is
-  the byte count of the successful readv; nothing waits forever.  (`clean` does NOT hold here:
-  see Props/C14_cancel.lean — both cancellation defects are reachable in this instance.)
+  the byte count of the successful readv; the operation state is never touched after the
+  completion; no registration survives; the kernel never reports the operation after its handler
+  was consumed (`bad` stays 0); nothing waits forever.
 -/
-import UnifexModel.Proto.EpollOp
+import UnifexModel.Props.C14_ops
 
 namespace Unifex.Props.C14
 open Unifex.Core Unifex.Proto.EpollOp
 
-theorem rd_cancel_race_safe : ∀ s, Reach (sys cfgRdCancelRace) s → safe cfgRdCancelRace s = true :=
-  safe_of_check _ { coded with M := 1741, W := 192 } 400 _ (by decide +kernel)
+theorem rd_cancel_race_ok : ∀ s, Reach (sys cfgRdCancelRace) s → good cfgRdCancelRace s = true :=
+  safe_of_check _ { coded with M := 1123, W := 192 } 400 _ (by decide +kernel)
 
+/-- non-vacuity: all three outcomes of the race are reachable —
+    cancellation wins while the operation is parked (the 5 bytes stay in the pipe), -/
+theorem race_done_parked : ∃ s, Reach (sys cfgRdCancelRace) s ∧
+    (final cfgRdCancelRace s && (getOp s 0).outcome == 2 && s.avail == 5) = true :=
+  witness cfgRdCancelRace
+    [0, 0, 1, 1, 1, 1, 1, 1, 0, 1, 1, 0, 0, 0, 0, 0, 0, 0, 0, 0, 0, 0, 0, 0, 0, 0, 1, 0, 0, 0, 0, 0, 0, 0, 0] _
+    (by decide +kernel)
 
-theorem race_witness (cs : List Nat) (good : St → Bool)
-    (h : (match runChoices (sys cfgRdCancelRace) (sys cfgRdCancelRace).init cs with | some (_, s) => good s | none => false) = true) :
-    ∃ s, Reach (sys cfgRdCancelRace) s ∧ good s = true := by
-  cases hr : runChoices (sys cfgRdCancelRace) (sys cfgRdCancelRace).init cs with
-  | none => simp [hr] at h
-  | some p =>
-    obtain ⟨ls, s⟩ := p
-    simp only [hr] at h
-    exact ⟨s, runChoices_reach _ _ _ _ _ Reach.init hr, h⟩
+/-- the I/O wins although stop was requested, -/
+theorem race_value : ∃ s, Reach (sys cfgRdCancelRace) s ∧
+    (final cfgRdCancelRace s && (getOp s 0).outcome == 1 && (getOp s 0).stopReq) = true :=
+  witness cfgRdCancelRace [0, 0, 0, 0, 0, 0, 0, 0, 0, 0, 0, 0, 0, 1, 1, 1, 0, 0, 0, 0, 0, 0, 0, 0] _ (by decide +kernel)
 
-/-- VIOLATION reachable by a race (no inline execution needed): the cancellation's
-    `epoll_ctl(DEL)` runs between `stopCallback_.construct` and `epoll_ctl(ADD)` of `start_io`; the
-    registration made afterwards outlives the operation and the kernel delivers an event for it. -/
-theorem cancel_race_VIOLATES_no_stale_event :
-    ∃ s, Reach (sys cfgRdCancelRace) s ∧ ((getOp s 0).freed && s.bad == 2) = true :=
-  race_witness [0, 0, 1, 1, 1, 1, 1, 1, 0, 0, 1, 1, 1, 1, 0, 0, 1, 0, 0, 0, 0, 1, 1, 1] _ (by decide +kernel)
-
-/-- VIOLATION, same race, data arriving earlier: the readiness event is handled while the
-    cancellation is in flight (`on_read_complete` sees the cancel flag and returns WITHOUT
-    `epoll_ctl(DEL)`), the registration made after the cancellation's DEL is still there and the
-    descriptor still readable, so the next epoll_wait reports the operation again — but
-    `execute_pending_local` has already nulled its `execute_`: the loop calls a null function
-    pointer (`bad = 3`; on the real code: SIGSEGV, turned into a monitor by the harness). -/
-theorem cancel_race_VIOLATES_no_null_handler :
-    ∃ s, Reach (sys cfgRdCancelRace) s ∧ ((getOp s 0).completions == 0 && s.bad == 3) = true :=
-  race_witness [0, 0, 1, 1, 1, 1, 1, 1, 0, 0, 1, 1, 1, 1, 0, 0, 0, 0, 0, 0, 0, 0, 0, 0, 0, 0, 0] _ (by decide +kernel)
-
-/-- VIOLATION: the stop source's store to `callbackCompleted_` after the operation was destroyed. -/
-theorem cancel_race_VIOLATES_no_touch_after_completion :
-    ∃ s, Reach (sys cfgRdCancelRace) s ∧ ((getOp s 0).freed && s.bad == 1) = true :=
-  race_witness [0, 0, 1, 1, 1, 1, 1, 1, 1, 1, 1, 2, 2, 2, 2, 2, 1, 1, 1, 1, 2] _ (by decide +kernel)
+/-- cancellation wins after the readiness handler already ran (`ioF = 1`): the handler backed off,
+    `complete_with_done` completes with done. -/
+theorem race_done_after_readiness : ∃ s, Reach (sys cfgRdCancelRace) s ∧
+    (final cfgRdCancelRace s && (getOp s 0).outcome == 2 && (getOp s 0).ioF == 1) = true :=
+  witness cfgRdCancelRace
+    [0, 0, 1, 1, 1, 1, 1, 1, 0, 0, 1, 1, 1, 1, 0, 0, 0, 1, 0, 0, 0, 0, 0, 0, 0, 0, 0, 0, 0, 0, 0, 0, 0, 0, 1, 0, 0, 0,
+     0, 0, 0, 0, 0] _ (by decide +kernel)
 
 end Unifex.Props.C14
